@@ -45,7 +45,7 @@ def run(tier, seed):
     gate["axioms"].update(gate_life["axioms"])
     # glue code (DESIGN 11.7, third round): run_count = |selected| (every mismatch reason counts as skipped) and the
     # priority queue keeps every listed test, read from nextest-runner/src/list/test_list.rs
-    gen_tie.gate(chk, ['run_count', 'priority_queue'], gate, family="glue")
+    gen_tie.gate(chk, ['run_count', 'priority_queue', 'execute_filter_stage'], gate, family="glue")
     binary, err = vlib.build_harness()
     if binary is None:
         chk.violation("broken-obligation", "harness-build", dict(error=err), no_input=True)
